@@ -364,6 +364,14 @@ func TestC13Histories(t *testing.T) {
 				last = &undo{rel, old, func() { pp.cval = oldV }}
 				desc += " " + p.name
 			case "edit_decl_const", "edit_behind_decl":
+				if !p.hasDecl { // prefer a package that has a binding package
+					for qi, q := range m.pkgs {
+						if q.hasDecl {
+							pi, p = qi, q
+							break
+						}
+					}
+				}
 				if !p.hasDecl {
 					desc, nontrivial = "noop (package has no declaration-only binding package)", false
 					break
